@@ -1,8 +1,12 @@
 //! xotharness — runs the real xot on generated cases and prints a transcript
 //! (`T<TAB>request<TAB>response`), statistics (`S<TAB>key<TAB>count`) and oracle failures
 //! (`F<TAB>property<TAB>json`).
+mod build_obs;
+mod build_oracle;
+mod build_render;
 mod common;
 mod strings;
+mod suite_build;
 mod suite_entity;
 mod suite_tree;
 mod tree;
@@ -24,6 +28,7 @@ fn main() {
     match suite {
         "entity" => suite_entity::run(seed, count, tier, &mut sink),
         "tree" => suite_tree::run(seed, count, tier, &mut sink),
+        "build" => suite_build::run(seed, count, tier, &mut sink),
         _ => {
             eprintln!("unknown suite {}", suite);
             std::process::exit(2);
